@@ -225,6 +225,36 @@ BANNERS = [b"SSH-2.0-\xff\xfe\xfd", b"SSH-1.0-old", b"SSH-2.0", b"NOTSSH", b"SSH
            b"SSH-9.9-x y z", b"\x00\x01\x02", b"SSH-2.0-x\x00y"]
 
 
+# honest-looking servers that answer authentication in every way the protocol allows: which methods they list,
+# what verdict each method gets, what the keyboard-interactive exchange looks like
+PERSONAS = [(allowed, pw, ki)
+            for allowed in ("password", "keyboard-interactive", "publickey", "keyboard-interactive,publickey",
+                            "password,keyboard-interactive", "", "none", "hostbased,x@y")
+            for pw in ("ok", "fail", "partial")
+            for ki in ("fail", "q0", "q1-ok", "q1-fail", "q2", "partial")]
+
+
+def apply_persona(srv, spec):
+    from paramiko import AUTH_FAILED, AUTH_PARTIALLY_SUCCESSFUL, AUTH_SUCCESSFUL, InteractiveQuery
+
+    allowed, pw, ki = spec
+    verdict = {"ok": AUTH_SUCCESSFUL, "fail": AUTH_FAILED, "partial": AUTH_PARTIALLY_SUCCESSFUL}
+    srv.get_allowed_auths = lambda username: allowed
+    srv.check_auth_password = lambda username, password: verdict[pw]
+    srv.check_auth_publickey = lambda username, key: verdict[pw]
+
+    def interactive(username, submethods):
+        if ki == "fail":
+            return AUTH_FAILED
+        if ki == "partial":
+            return AUTH_PARTIALLY_SUCCESSFUL
+        n = {"q0": 0, "q1-ok": 1, "q1-fail": 1, "q2": 2}[ki]
+        return InteractiveQuery("t", "i", *[("Prompt %d: " % k, False) for k in range(n)])
+
+    srv.check_auth_interactive = interactive
+    srv.check_auth_interactive_response = lambda responses: AUTH_SUCCESSFUL if ki in ("q1-ok", "q0") else AUTH_FAILED
+
+
 def fuzz_session(victim, index, kind, seed, kex=None, banner=None, pk=False):
     # pk: False = classic client + password; True = ServiceRequestingTransport + publickey;
     #     "ki" = classic client + keyboard-interactive; "ki-srt" = ServiceRequestingTransport + keyboard-interactive;
@@ -259,6 +289,8 @@ def fuzz_session(victim, index, kind, seed, kex=None, banner=None, pk=False):
     info = {"type": None, "count": 0}
     if banner is not None:
         attacker.local_version = banner.decode("latin-1") if isinstance(banner, bytes) else banner
+    elif kind.startswith("persona:"):
+        pass
     else:
         orig = attacker.packetizer.send_message
 
@@ -285,6 +317,8 @@ def fuzz_session(victim, index, kind, seed, kex=None, banner=None, pk=False):
             return None
 
     srv = lib_net.BasicServer()
+    if kind.startswith("persona:"):
+        apply_persona(srv, PERSONAS[int(kind[8:])])
     sev = threading.Event()
     done = threading.Event()
 
@@ -454,7 +488,8 @@ def run(ctx):
     ctx.rule = ("(a) each exception class raised inside the real transport thread x each reporting API (24 cases, "
                 "exhaustive); (b) scripted sessions against a client victim and a server victim with the attacker's "
                 "k-th packet mutated by one of 7 structure-aware mutations, plus malformed banners and well-formed banners "
-                "with odd version tokens x every client flavour (password, publickey, keyboard-interactive, RSA "
+                "with odd version tokens and 144 honest server personas (methods listed x verdicts x keyboard-interactive "
+                "shapes) x every client flavour (password, publickey, keyboard-interactive, RSA "
                 "certificate; classic and ServiceRequestingTransport). distinct = "
                 "(victim, mutated message type, mutation kind, surfaced classes); non-trivial = the mutation changed "
                 "the session outcome (some exception was surfaced on the victim)")
@@ -532,6 +567,12 @@ def run(ctx):
                                      flavour))
         for b in BANNERS:
             jobs.append((victim, -1, "banner", "b", None, b, False))
+        if victim == "client":
+            flv = (False, True, "ki", "ki-srt", "cert", "cert-srt")
+            for n in range(len(PERSONAS)):
+                for j, flavour in enumerate(flv):
+                    if ctx.thorough or (n + j) % 3 == 0 or flavour is False:
+                        jobs.append((victim, -2, "persona:%d" % n, "p", None, None, flavour))
         for b in ODD_BANNERS:
             for flavour in ((False, True, "ki", "ki-srt", "cert", "cert-srt") if victim == "client" else (False,)):
                 jobs.append((victim, -1, "odd-banner", "b", None, b, flavour))
@@ -555,9 +596,13 @@ def run(ctx):
         events, mtype, hung = res
         if hung:
             ctx.dist("script-hung")
-        if banner is None and mtype is None:
+        if banner is None and mtype is None and not kind.startswith("persona:"):
             ctx.dist("index-beyond-session")
             continue
+        persona = None
+        if kind.startswith("persona:"):
+            persona = list(PERSONAS[int(kind[8:])])
+            kind = "persona"
         classes = sorted({classify(e) for _w, e in events})
         ctx.case((victim, mtype, kind, tuple(classes)), bool(events))
         ctx.dist("victim:%s" % victim)
@@ -569,7 +614,7 @@ def run(ctx):
         for where, e in events:
             if not isinstance(e, (SSHException, EOFError, OSError)):
                 ctx.fail(exc_site(e), {"victim": victim, "pubkey_client": pk, "packet_index": idx, "msg_type": mtype, "mutation": kind,
-                                       "seed": seed, "api": where,
+                                       "seed": seed, "api": where, "server_persona(allowed,password_verdict,interactive)": persona,
                                        "banner": (banner.hex() if isinstance(banner, bytes) else banner) if banner else None},
                          "%s raised/returned %r" % (where, e))
     if infra > len(jobs) // 10:
